@@ -203,6 +203,7 @@ pub fn sorter_case(data: &[u8]) -> Result<(SConf, MergeKind, c07::InsertSrc)> {
         interval: *u.choose(&[None, Some(1usize), Some(3), Some(usize::MAX)])?,
         levels: *u.choose(&[None, Some(0u8), Some(1), Some(2), Some(3)])?,
         creator: CreatorKind::CursorVec,
+        order: 0,
     };
     let kind = *u.choose(&MergeKind::ALL)?;
     let n = u.int_in_range(0..=120usize)?;
